@@ -153,7 +153,46 @@ def judge(args):
         shutil.rmtree(wd, ignore_errors=True)
 
 
+def held_writer(args):
+    """deterministic window: writer w1 is held inside its write (at a pause point), a second writer to the same key, a
+    memtable rotation and a flush are started meanwhile; afterwards the value of the key must be one of the two written
+    values and must not change without a write: not by rotation + flush + major compaction, not by reopen"""
+    site, w1kind, w2kind = args
+    w1 = {"put": "put h0 61 aa", "del": "del h0 61", "batch": "batch - h0:p:61:aa h1:p:71:aa"}[w1kind]
+    w2 = {"put": "put h0 61 bb", "del": "del h0 61", "batch": "batch - h0:p:61:bb h1:p:71:bb"}[w2kind]
+    L = ["open plain", "ks h0 alpha", "ks h1 beta", "put h0 61 00", "put h0 62 00",
+         "pausepoint %s 1 hold" % site, "thread w1 %s &" % w1, "waitpause %s" % site, "thread w2 %s &" % w2, "sleep 150",
+         "thread r rotate h0 &", "sleep 150", "drain", "release %s" % site, "sleep 300", "drain", "get - h0 61",
+         "get - h0 61", "rotate h0", "drain", "major h0", "get - h0 61", "reopen", "ks h0 alpha", "get - h0 61"]
+    prog = "\n".join(L) + "\n"
+    o, raw, rc = run_fjv(prog, env_extra={"FJV_SYNC_TIMEOUT_MS": "6000"}, timeout=90)
+    n = len(L)
+    r1, r1b, r2, r3 = o.get(17), o.get(18), o.get(22), o.get(n)
+    vals = set()
+    for k, w in ((w1kind, "aa"), (w2kind, "bb")):
+        vals.add("none" if k == "del" else "some " + w)
+    problems = []
+    if any(o.get(i) is None for i in (7, 9, 11)):
+        problems.append("an operation never returned: w1=%s w2=%s rotate=%s" % (o.get(7), o.get(9), o.get(11)))
+    elif not (r1 == r1b == r2 == r3):
+        problems.append("the value of key 61 changes without any write: after both writers returned %s, again %s, after "
+                        "rotate+flush+major compaction %s, after reopen %s" % (r1, r1b, r2, r3))
+    elif r1 not in vals:
+        problems.append("key 61 reads %s, which neither writer wrote (%s)" % (r1, sorted(vals)))
+    return dict(prog=prog, problems=problems, site=site)
+
+
+HELD = [(s_, a, b) for s_, kinds in (("ks.after_journal", ("put", "del")), ("ks.before_publish", ("put", "del")),
+                                      ("batch.after_seqno", ("batch",)), ("batch.after_item", ("batch",)),
+                                      ("batch.before_publish", ("batch",)))
+        for a in kinds for b in ("put", "del", "batch")]
+
+
 def run(rep, tier, seed, build):
+    hw = pmap(held_writer, HELD if tier != "quick" else [x for i, x in enumerate(HELD) if (i + seed) % 2 == 0 or x[0] == "ks.after_journal"],
+              workers=6)
+    for x in [x for x in hw if x["problems"]][:2]:
+        rep.violation("# C14: writer held at %s while a second writer, a rotation and a flush run: %s\n%s" % (x["site"], x["problems"][0], x["prog"]))
     n = 24 if tier == "quick" else 300
     res = pmap(judge, [(seed * 2147483647 + i, tier) for i in range(n)], workers=4)
     bad = [x for x in res if x["problems"]]
@@ -165,7 +204,7 @@ def run(rep, tier, seed, build):
                              "memtable limit 600-4000 bytes and 1-4 worker threads (continuous rotation/flush/compaction), every operation "
                              "timestamped at call and return; per-key Wing-Gong linearizability search including a final read of the "
                              "content; content after reopen must equal the final content; distinct by (threads, ops, workers, memtable)",
-                        samples=[res[0]["run"]["prog"].splitlines()[:8]], runs=n, threads_max=max(x["run"]["threads"] for x in res),
+                        samples=[res[0]["run"]["prog"].splitlines()[:8]], held_writer_schedules=len(hw), runs=n, threads_max=max(x["run"]["threads"] for x in res),
                         disagreements_checked=len(bad))
     rep.assumptions = ["thread schedules are sampled by the OS scheduler, not enumerated", "timestamps are taken in the harness around each API call"]
 
